@@ -83,19 +83,35 @@ Theorem single_worker_yield_wait : forall rs q P b R,
 Proof. exact single_worker_yield_wait_l. Qed.
 Print Assumptions single_worker_yield_wait.
 
-(* an owner-dequeued task is really run, unless it is the McCoy task taken by a worker other than worker 0 ... *)
+(* the `default:` branch that remains (a McCoy task obtained by a worker other than worker 0 is re-queued, not run): every
+   other dequeued task is really run *)
 Theorem dequeued_runs_guarded : forall st s w n,
   mccoy n = false \/ w = O -> exists st', finish_node st s w n = FDone (GGot n) st'.
 Proof. exact dequeued_task_runs. Qed.
 Print Assumptions dequeued_runs_guarded.
 
-(* ... and in exactly that class the full statement "busy-waiting with yield for a ready task terminates" fails on a
-   multi-worker shepherd: a fair two-worker cycle in which the McCoy task is never run (known finding) *)
-Theorem mccoy_requeue_starvation_refuted :
+(* McCoy hand-over (rule after fix "a worker that may not run the McCoy task leaves it in place"): for EVERY interleaving
+   of the workers of one shepherd on its queue (pops by any worker, yields, spawns, thieves), starting from P ++ M :: R
+   with M the single unstealable McCoy task:  (A) M is handed out only by a pop of worker 0 - no other worker removes it,
+   no thief steals it;  (B) as soon as worker 0 has popped more often than |R| + #tail-enqueues, one of its pops returned M.
+   A task on worker 0 that busy-waits with qthread_yield() for main performs one pop per yield: the wait terminates. *)
+Theorem mccoy_handover : forall ops q P M R q' outs,
+  exact q -> items q = P ++ M :: R -> mccoy M = true -> stl M = false -> nm P -> nm R -> Forall push_ok ops ->
+  wrun q ops = (q', outs) ->
+  (forall k, In M (nth k outs []) -> nth_error ops k = Some (WPop O)) /\
+  ((length R + count_push ops < count_pop0 ops)%nat ->
+   exists k, nth_error ops k = Some (WPop O) /\ nth k outs [] = [M]).
+Proof. exact mccoy_handover_l. Qed.
+Print Assumptions mccoy_handover.
+
+(* REGRESSION: under the rule before the fix (every worker pops the tail; wrun_old) there is a fair two-worker cycle in
+   which the McCoy task never runs while a yielder is re-run for ever; the same schedule under the new rule hands M to worker 0 *)
+Theorem old_rule_starvation_cycle :
   exists (M A : node) (q : queue) (st : sys),
     mccoy M = true /\ mccoy A = false /\ exact q /\ items q = [M] /\
     (exists st', finish_node st O 1 M = FCont st') /\
-    qrun q (mccoy_cycle M A) = (q, [[M]; []; [A]; []]) /\
-    forall k, fst (qrun q (concat (repeat (mccoy_cycle M A) k))) = q.
-Proof. exact Proofs2.mccoy_requeue_starvation_refuted. Qed.
-Print Assumptions mccoy_requeue_starvation_refuted.
+    wrun_old q (mccoy_cycle M A) = (q, [[M]; []; [A]; []]) /\
+    (forall k, fst (wrun_old q (concat (repeat (mccoy_cycle M A) k))) = q) /\
+    snd (wrun q [WPop 1; WPushY A; WPop 0]) = [[]; []; [M]].
+Proof. exact Proofs2.old_rule_starvation_cycle. Qed.
+Print Assumptions old_rule_starvation_cycle.
